@@ -272,6 +272,7 @@ package state
 // garbage collection: exactly the other nicks left sharing no channel are forgotten
 //@   ensures [C12] forall n *nick :: old(has(ch.nicks, n)) && n != st.me && len(n.chans) == 0 ==> !has(st.nicks, n.nick)
 //@   ensures [C12] forall k int :: old(has(dom(st.nicks), k)) && !has(dom(st.nicks), k) ==> old(has(ch.nicks, vals(st.nicks)[k])) && vals(st.nicks)[k] != st.me && len(vals(st.nicks)[k].chans) == 0
+//@   ensures [C12] forall m *nick :: isa(m, "nick") && !old(has(ch.nicks, m)) ==> dom(m.chans) === old(dom(m.chans))
 //@   modifies mapsof("map[string]*nick"), mapsof("map[string]*channel"), mapsof("map[*nick]*ChanPrivs"), mapsof("map[*channel]*ChanPrivs"), $log
 //@   ensures $held === old($held)
 //@   loop 0:
@@ -280,6 +281,7 @@ package state
 //@     invariant [C12] forall n *nick :: old(has(ch.nicks, n)) && !has(ch.nicks, n) && n != st.me && len(n.chans) == 0 ==> !has(st.nicks, n.nick)
 //@     invariant [C12] forall k int :: old(has(dom(st.nicks), k)) && !has(dom(st.nicks), k) ==> old(has(ch.nicks, vals(st.nicks)[k])) && !has(ch.nicks, vals(st.nicks)[k]) && vals(st.nicks)[k] != st.me && len(vals(st.nicks)[k].chans) == 0
 //@     invariant [C12] forall n *nick :: has(ch.nicks, n) ==> tracked(st, n)
+//@     invariant [C12] forall m *nick :: isa(m, "nick") && !old(has(ch.nicks, m)) ==> dom(m.chans) === old(dom(m.chans))
 //@     invariant [C12] st.me == old(st.me) && st.nicks == old(st.nicks) && st.chans == old(st.chans) && ch.name == old(ch.name)
 //@     invariant [C12] dom(st.chans) === upd(old(dom(st.chans)), ch.name, false) && vals(st.chans) === old(vals(st.chans)) && vals(st.nicks) === old(vals(st.nicks))
 //@     invariant [C12] forall n *nick :: has(ch.nicks, n) ==> !has(visited(), n) && old(has(ch.nicks, n))
@@ -338,7 +340,7 @@ package state
 //@        && dom(st.nicks) === setadd(old(dom(st.nicks)), n) && fresh(st.nicks[n]) && st.nicks[n].nick == n
 //@        && dom(st.nicks[n].chans) === emptyset() && dom(st.nicks[n].lookup) === emptyset()
 //@        && (forall k int :: k != sid(n) ==> vals(st.nicks)[k] == old(vals(st.nicks)[k]))
-//@        && dom(st.chans) === old(dom(st.chans)) && vals(st.chans) === old(vals(st.chans)) && objsUnchanged(st)
+//@        && dom(st.chans) === old(dom(st.chans)) && vals(st.chans) === old(vals(st.chans)) && objsUnchanged(st) && oldMembersUnchanged()
 //@ end
 //@ func (*stateTracker).GetNick
 //@   property C14, C12
@@ -397,6 +399,7 @@ package state
 //@        && dom(st.chans) === old(dom(st.chans)) && vals(st.chans) === old(vals(st.chans))
 //@        && len(old(st.nicks[n]).chans) == 0
 //@        && (forall c *channel, m *nick :: isa(c, "channel") ==> (has(c.nicks, m) <==> old(has(c.nicks, m)) && m != old(st.nicks[n])))
+//@        && (forall m *nick :: isa(m, "nick") && m != old(st.nicks[n]) ==> dom(m.chans) === old(dom(m.chans)))
 //@ end
 //@ func (*stateTracker).NickInfo
 //@   property C14, C12
@@ -444,7 +447,7 @@ package state
 //@        && dom(st.chans) === setadd(old(dom(st.chans)), c) && fresh(st.chans[c]) && st.chans[c].name == c
 //@        && dom(st.chans[c].nicks) === emptyset() && dom(st.chans[c].lookup) === emptyset()
 //@        && (forall k int :: k != sid(c) ==> vals(st.chans)[k] == old(vals(st.chans)[k]))
-//@        && dom(st.nicks) === old(dom(st.nicks)) && vals(st.nicks) === old(vals(st.nicks)) && objsUnchanged(st)
+//@        && dom(st.nicks) === old(dom(st.nicks)) && vals(st.nicks) === old(vals(st.nicks)) && objsUnchanged(st) && oldMembersUnchanged()
 //@ end
 //@ func (*stateTracker).GetChannel
 //@   property C14, C12
@@ -550,7 +553,8 @@ package state
 //@     && (ok ==> result != nil && !result.Owner && !result.Admin && !result.Op && !result.HalfOp && !result.Voice
 //@          && nk == st.nicks[n] && ch == st.chans[c] && idxUnchanged(st) && objsUnchanged(st)
 //@          && has(nk.chans, ch) && has(ch.nicks, nk) && fresh(nk.chans[ch]) && privEq(nk.chans[ch], result)
-//@          && (forall x *channel, m *nick :: isa(x, "channel") && !(x == ch && m == nk) ==> (has(x.nicks, m) <==> old(has(x.nicks, m))) && (has(x.nicks, m) ==> x.nicks[m] == old(x.nicks[m]))))
+//@          && (forall x *channel, m *nick :: isa(x, "channel") && !(x == ch && m == nk) ==> (has(x.nicks, m) <==> old(has(x.nicks, m))) && (has(x.nicks, m) ==> x.nicks[m] == old(x.nicks[m])))
+//@          && (forall m *nick :: isa(m, "nick") && m != nk ==> dom(m.chans) === old(dom(m.chans))))
 //@ end
 //@ func (*stateTracker).Dissociate
 //@   property C14, C12
@@ -569,7 +573,8 @@ package state
 //@     && (ok && old(st.nicks[n]) != st.me ==> dom(st.chans) === old(dom(st.chans)) && vals(st.chans) === old(vals(st.chans)) && vals(st.nicks) === old(vals(st.nicks))
 //@          && (forall x *channel, m *nick :: isa(x, "channel") ==> (has(x.nicks, m) <==> old(has(x.nicks, m)) && !(x == old(st.chans[c]) && m == old(st.nicks[n]))))
 //@          && (len(old(st.nicks[n]).chans) == 0 ==> dom(st.nicks) === upd(old(dom(st.nicks)), n, false))
-//@          && (len(old(st.nicks[n]).chans) != 0 ==> dom(st.nicks) === old(dom(st.nicks))))
+//@          && (len(old(st.nicks[n]).chans) != 0 ==> dom(st.nicks) === old(dom(st.nicks)))
+//@          && (forall m *nick :: isa(m, "nick") && m != old(st.nicks[n]) ==> dom(m.chans) === old(dom(m.chans))))
 //@ end
 
 // ---------------------------------------------------------------------------
@@ -612,6 +617,11 @@ package state
 // deletions never change stored values
 //@ pred mapValsSame() := (forall m map[*channel]*ChanPrivs :: vals(m) === old(vals(m))) && (forall m map[*nick]*ChanPrivs :: vals(m) === old(vals(m)))
 //@     && (forall m map[string]*channel :: vals(m) === old(vals(m))) && (forall m map[string]*nick :: vals(m) === old(vals(m)))
+// C13: what the protocol handlers keep true on top of RI: the client is on every tracked
+// channel, and every other tracked nick shares at least one channel
+//@ pred chanHasMe(st *stateTracker) := forall k int :: has(dom(st.chans), k) ==> has(vals(st.chans)[k].nicks, st.me)
+//@ pred nickShares(st *stateTracker) := forall k int :: has(dom(st.nicks), k) && vals(st.nicks)[k] != st.me ==> len(vals(st.nicks)[k].chans) > 0
+//@ pred Safe13(st *stateTracker) := st != nil && held(st.mu) == 0 && RI(st) && chanHasMe(st) && nickShares(st)
 //@ pred RIn(st *stateTracker) := HI() && trkShape(st) && LT(st) && sepIdx(st)
 //@ pred RI(st *stateTracker) := RIn(st) && LT2(st)
 
@@ -626,6 +636,9 @@ package state
 // no membership map changes
 //@ pred membersUnchanged() := (forall m map[*channel]*ChanPrivs :: dom(m) === old(dom(m)) && vals(m) === old(vals(m)))
 //@     && (forall m map[*nick]*ChanPrivs :: dom(m) === old(dom(m)) && vals(m) === old(vals(m)))
+// no membership map that existed before changes
+//@ pred oldMembersUnchanged() := (forall m map[*channel]*ChanPrivs :: !fresh(m) ==> dom(m) === old(dom(m)) && vals(m) === old(vals(m)))
+//@     && (forall m map[*nick]*ChanPrivs :: !fresh(m) ==> dom(m) === old(dom(m)) && vals(m) === old(vals(m)))
 // no field of any existing nick / channel object changes
 //@ pred objsUnchanged(st *stateTracker) := (forall n *nick :: !fresh(n) ==> n.nick == old(n.nick) && n.ident == old(n.ident) && n.host == old(n.host) && n.name == old(n.name)
 //@            && n.chans == old(n.chans) && n.lookup == old(n.lookup) && n.modes == old(n.modes))
@@ -647,6 +660,7 @@ package state
 //@     && (forall k int :: has(dom(st.nicks), k) ==> old(has(dom(st.nicks), k)))
 //@     && (forall n *nick :: old(has(x.nicks, n)) && n != st.me && len(n.chans) == 0 ==> !has(st.nicks, n.nick))
 //@     && (forall k int :: old(has(dom(st.nicks), k)) && !has(dom(st.nicks), k) ==> old(has(x.nicks, vals(st.nicks)[k])) && vals(st.nicks)[k] != st.me && len(vals(st.nicks)[k].chans) == 0)
+//@     && (forall m *nick :: isa(m, "nick") && !old(has(x.nicks, m)) ==> dom(m.chans) === old(dom(m.chans)))
 // lookup consistency while nick x is being renamed from a to b: channels of x
 // not yet visited still list it under a
 //@ pred LKr(x *nick, a string, b string) := (forall n *nick, k int :: isa(n, "nick") && has(dom(n.lookup), k) ==> vals(n.lookup)[k] != nil && has(n.chans, vals(n.lookup)[k]) && sid(vals(n.lookup)[k].name) == k)
